@@ -124,7 +124,7 @@ def worker(kp, job):
 def run(chk):
     b = core.standard_build(chk)
     model = core.Model() if b.modelrun_ok else None
-    full = chk.tier == 'thorough' or bool(b.drift) or not b.proof_ok
+    full = chk.tier == 'thorough' or bool(b.drift) or not b.proof_ok or not b.modelrun_ok
     n = core.budget(chk, full, 70, 500)
     chk.rule = ('generated documents x 14 combinations of two or three non-default options (subsets of spine ids / types, '
                 'include/exclude sets, one of six encodings) compared with the composed transformations of the generator\'s '
